@@ -16,7 +16,8 @@ RULE_TEXT = ("surface-resistance decision tables evaluated on every combination 
 EXPLANATION = ("D1 Rsi tables (exterior by tilt; partitions by conditioning x tilt; 18 rows) and Rse; D2 formulas of u_value_exterior, u_value_interior_cond_uncond, "
                "u_value_gnd_slab, u_value_gnd_wall, slab_psi_gnd_ext, slab_d_t, slab_char_dim, WallCons::resistance, fround2/3; D3 no construction/material => no U; "
                "D4 dispatch by boundary kind and tilt, ventilation precedence; D5 burial depth z = max(-space.z, 0)")
-DECIDED = ["D1 surface-resistance tables", "D2 leaf formulas", "D3 missing construction or material => None", "D4 dispatch and ventilation precedence", "D5 burial depth"]
+DECIDED = ["D1 surface-resistance tables", "D2 leaf formulas", "D3 missing construction or material => None", "D4 dispatch and ventilation precedence", "D5 burial depth",
+           "D5 the building-wide ventilation rate used for partitions is 3.6 l/s over the net volume of the habitable spaces inside the envelope"]
 UNDECIDED = ["two-decimal agreement of the assembled value on real models (aggregation over surfaces, characteristic dimension from geometry)",
              "monotonicity in layers (a sign argument over runtime values)"]
 ASSUMPTIONS = ["reference formulas transcribed from EN ISO 6946 / 13370 / 13789 as named in the statement"]
